@@ -1,9 +1,63 @@
 """C05 — every vertex carries the log-Euclidean interpolation of the input metric."""
-from . import streams_metric, cli
+import os
+import random
+
+from . import streams_metric, cli, meshgen, pyio
+from .common import Stream
 
 ID = 'C05'
 PROPS_MODULE = ['Refine.Props.C05']
-STREAMS = [streams_metric.INTERP_KERNEL, streams_metric.INTERP_GRID, cli.ADAPT_METRIC]
+
+
+# ---- regression for the defect repaired in /repo e210980 (known_findings: ref_metric_interpolate:tri-face-id-as-fourth-vertex):
+# the parallel whole-field transfer ref_metric_interpolate (adapt -> ref_metric_synchronize on np > 1) read the face id of a
+# 2-D donor triangle as a fourth vertex.  Scenario: 2-D mesh whose triangle ids are far beyond the vertex count, refmpi adapt.
+def sc_adapt_bigid(ctx, d, case):
+    rng = random.Random(int(d.get('mseed', '1')))
+    n = [int(x) for x in d.get('n', '6,6').split(',')]
+    v, t, e = meshgen.square_tris(n[0], n[1], rng, float(d.get('jitter', '0')))
+    fid = int(d.get('triid', '1000000'))
+    t = [tuple(list(c[:3]) + [fid]) for c in t]
+    mesh = os.path.join(case, 'in.meshb')
+    pyio.write_meshb(mesh, 2, v, {'tri': t, 'edg': e})
+    met = cli.write_metric(case, 2, v, d.get('metric', 'uniform:0.08'))
+    np = int(d.get('np', '2'))
+    args = ['adapt', mesh, '--metric', met, '-x', os.path.join(case, 'out.meshb'), '-s', d.get('passes', '2'),
+            '--export-metric-as', os.path.join(case, 'out-metric.solb')]
+    rc, tail = cli.run_ref(ctx, np, args, case)
+    return 'rc=%d dir=%s' % (rc, case)
+
+
+cli.SCENARIOS['adapt_bigid'] = sc_adapt_bigid
+
+
+def gen_adapt_bigid(rng, tier, np):
+    ops = []
+    for k in range(2 if tier == 'quick' else 6):
+        metric = ['uniform:%.3f' % rng.uniform(0.06, 0.15),
+                  rng.choice(['linh:%.3f,%.3f,%d' % (rng.uniform(0.05, 0.1), rng.uniform(0.15, 0.3), rng.randint(0, 1)),
+                              'rot:%.3f,%.3f,1,%.3f' % (rng.uniform(0.04, 0.1), rng.uniform(0.15, 0.3), rng.uniform(0, 3.1)),
+                              'aniso:%.3f,%.3f,1' % (rng.uniform(0.05, 0.15), rng.uniform(0.1, 0.3))])][k % 2]
+        ops.append('adapt_bigid dim=2 n=%d,%d jitter=%s mseed=%d triid=%d metric=%s passes=2 np=%d' % (
+            rng.randint(4, 7), rng.randint(4, 7), rng.choice(['0', '0.3']), rng.randint(1, 10 ** 6),
+            rng.choice([1000000, 1000000, 50000, 2000000000]), metric, np))
+    return ops
+
+
+def oracle_adapt_bigid(ops, impl):
+    bad = []
+    for i, (op, line) in enumerate(zip(ops, impl)):
+        rc = cli.parse_out(line).get('rc')
+        if rc != '0':
+            bad.append((i, 'refmpi adapt on a 2-D mesh with large triangle ids exited with status %s '
+                           '(ref_metric_interpolate must not read the face id as a donor vertex)' % rc))
+    return bad + list(cli.oracle_adapt_metric(ops, impl))
+
+
+ADAPT_BIGID_MPI = Stream('cli_adapt_metric_2d_bigid_mpi', cli.cli_harness, None, gen_adapt_bigid, oracle=oracle_adapt_bigid,
+                         kind='oracle', np=[2, 3], nontrivial=lambda op, out: out.startswith('rc=0'), timeout=900)
+
+STREAMS = [streams_metric.INTERP_KERNEL, streams_metric.INTERP_GRID, cli.ADAPT_METRIC, ADAPT_BIGID_MPI]
 
 EXPLANATION = (
     'Proved in Lean over the reals, about the executable model (Refine/Model/Metric.lean: interpolateNode = '
@@ -35,7 +89,10 @@ EXPLANATION = (
     'Oracles (independent 50-digit Jacobi exp/log, exact rational combination): stored log = sum w_i log_i, stored metric = '
     'exp of it, uniform fields reproduced, log-linear fields reproduced at the vertex position to 1e-9, eigenvalues '
     'inside the donors\' range. End to end: `ref adapt` (cli_adapt_metric: uniform reproduction and spectrum bounds at '
-    'every output vertex after splits, collapses, swaps and smoothing).')
+    'every output vertex after splits, collapses, swaps and smoothing) and `refmpi adapt` on 2 and 3 ranks on 2-D meshes '
+    'whose triangle ids exceed the vertex count (cli_adapt_metric_2d_bigid_mpi: regression for the defect found by this '
+    'package and repaired in /repo e210980 — ref_metric_interpolate read the face id of a 2-D donor triangle as a fourth '
+    'donor vertex: out-of-bounds read, SIGSEGV for id 1000000).')
 
 ASSUMPTIONS = [
     'theorems hold in exact real arithmetic about the model; IEEE rounding is modelled (Float instance, bit-compared), '
@@ -50,6 +107,8 @@ ASSUMPTIONS = [
     'the donor search (ref_interp_locate_node / _between: walk, tree fallback), ref_interp_pack, ref_interp_from_part and '
     'the migration alignment of (cell, bary, part) are NOT modelled: tied in process for the serial search '
     '(metric_interp_grid) and end to end only (cli_adapt_metric; parallel runs are covered by the C04 streams)',
-    'ref_metric_interpolate (the blind-send field transfer) shares the combination loop but is not driven separately',
+    'ref_metric_interpolate (the blind-send whole-field transfer of refmpi) is modelled for its donor-side combination '
+    '(interpolateDonor; proved equal to the per-vertex path: interpolateDonor_eq_node) and tied by running the real routine '
+    'on one rank (interp_field ops); the blind-send exchange itself is C17 and covered here end to end only',
     'Python oracle arithmetic (fractions, 50-digit decimal Jacobi) is trusted',
 ]
